@@ -13,6 +13,64 @@ EXPLANATION = ("Static rules over quinn-proto MIR: (a) IncomingToken{validated: 
 RULE = "rule instances = (rule, site) pairs over MIR constructions / branches / call arguments; non-trivial = bound to a real site"
 
 
+def _is_call(d, *names):
+    """the value IS the result of a call of one of `names` (every reaching alternative), with nothing applied to it"""
+    xs = flat(d)
+    return bool(xs) and all(x[0] == 'call' and any(x[1] == n or path_matches(x[2], n) or D._trait_form(x[1]) == n for n in names) for x in xs)
+
+
+def _is_param(d, name):
+    return d[0] == 'param' and d[2] == name
+
+
+def _token_field(d, variant, name):
+    """d is exactly `(<Token::decode(..) as Some>.0.payload as <variant>).<name>`: a projection chain ending in the decoded
+    token, with no call / arithmetic / literal / merge applied on the way"""
+    if not (d[0] == 'field' and d[2] == name and d[1][0] == 'variant' and d[1][2] == variant):
+        return False
+    x = d[1][1]
+    while x[0] in ('field', 'variant'):
+        x = x[1]
+    return x[0] == 'call' and x[1] == 'Token::decode'
+
+
+def _remote_ip(d):
+    """exactly remote_address.ip()"""
+    return d[0] == 'call' and d[1] == 'SocketAddr::ip' and len(d[3]) == 1 and _is_param(d[3][0], 'remote_address')
+
+
+def _int0(x):
+    return x[0] == 'const' and x[1] == 'int' and str(x[2]).split('_')[0] == '0'
+
+
+def _len_of(x, about):
+    return x[0] == 'call' and x[1].rsplit('::', 1)[-1] in ('len', 'remaining') and about(x)
+
+
+def _nonempty_edges(ctx, body, about):
+    """(Branch, target) for every branch edge on which the byte reader selected by about(desc) is known NOT to be exhausted:
+    is_empty() == false, has_remaining() == true, len()/remaining() != 0, 0 < len()"""
+    out = []
+    for br in branches(ctx.facts, body):
+        inner, neg = peel_not(br.desc)
+        if inner[0] == 'call' and about(inner):
+            m = inner[1].rsplit('::', 1)[-1]
+            if m == 'is_empty':
+                out.append((br, br.target(1 if neg else 0)))
+                continue
+            if m == 'has_remaining':
+                out.append((br, br.target(0 if neg else 1)))
+                continue
+        for truth in (True, False):
+            rel = relation_on(br.desc, truth)
+            if rel is None:
+                continue
+            op, a, b = rel
+            if (op == 'Ne' and ((_int0(a) and _len_of(b, about)) or (_int0(b) and _len_of(a, about)))) or (op == 'Lt' and _int0(a) and _len_of(b, about)):
+                out.append((br, br.target(1 if truth else 0)))
+    return out
+
+
 def rule_a(ctx):
     F = ctx.facts
     fh = ctx.pfn('IncomingToken::from_header')
@@ -25,6 +83,17 @@ def rule_a(ctx):
         if not (v[0] == 'const' and str(v[2]) == '0'):
             val.append(c)
             ctx.check(F.root_of(c.body).id == fh.id, 'a', 'validated_token_sites', F.root_of(c.body), c.where(), 'validated: true in from_header', 'IncomingToken{validated: true} constructed outside from_header')
+    # the flag can also be turned on after construction: any store to / &mut borrow of IncomingToken.validated other than `= false`
+    for w in field_writes(F, 'IncomingToken', 'validated', crate='quinn_proto'):
+        if w.kind == 'mutborrow' and w.call is not None and is_noise(w.call):
+            continue
+        harmless = False
+        if w.kind == 'assign' and w.rv and w.rv[0] == 'use' and place_ends_in_field(w.place, 'IncomingToken', 'validated'):
+            wv = describer(F, w.body).rvalue(w.rv, w.bb, w.idx, 0)
+            harmless = wv[0] == 'const' and str(wv[2]) == '0'
+        ctx.check(harmless, 'a', 'validated_token_sites', F.root_of(w.body), w.where(), 'IncomingToken.validated = false', '%s of IncomingToken.validated in %s: the flag is (or can be) set outside the constructions in from_header' % (w.kind, F.root_of(w.body).short))
+    # the per-site obligations below are stated over from_header; constructions elsewhere were reported above
+    val = [c for c in val if F.root_of(c.body).id == fh.id and c.body.id == fh.id]
     ctx.check(len(val) == 2, 'a', 'validated_token_site_count', fh, fh.where(), '2 sites (Retry, Validation)', 'expected two validated-token construction sites, found %d' % len(val))
     dec = fh.calls_to('Token::decode')
     ctx.floor('a', 'decode_sites', len(dec), 1)
@@ -33,21 +102,28 @@ def rule_a(ctx):
         ctx.check(p is None, 'a', 'validated_only_after_decode', fh, c.where(), 'dominated by Token::decode', 'a token can be accepted without decoding')
     # decode None edge -> unvalidated
     for dcall in dec:
-        for br in branches(F, fh):
-            if br.desc[0] == 'discr' and is_site(br.desc[1], dcall):
-                t_none = br.target(0)
-                ctx.check(all(c.bb not in fh.reachable_from(t_none) for c in val), 'a', 'undecodable_token_is_absent', fh, dcall.where(), 'None edge reaches no validated construction', 'an undecodable token can validate the address')
+        # the Option returned by decode is itself branched on (not handed to a combinator that may substitute a token), the
+        # branch dominates every acceptance and its None edge reaches none
+        dbr = [br for br in branches(F, fh) if br.desc[0] == 'discr' and br.desc[1][0] != 'phi' and is_site(br.desc[1], dcall)]
+        ok = bool(dbr) and bool(val)
+        for br in dbr:
+            t_none = br.target(0)
+            if any(c.bb in fh.reachable_from(t_none, avoid=[br.bb]) for c in val):
+                ok = False
+        if not all(any(fh.dominates(br.bb, c.bb) for br in dbr) for c in val):
+            ok = False
+        ctx.check(ok, 'a', 'undecodable_token_is_absent', fh, dcall.where(), 'None edge reaches no validated construction', 'an undecodable token can validate the address (no branch on the decode result whose None edge is cut off from every acceptance)')
     # per-site guards
     retry_site = [c for c in val if D.has_field(describer(F, fh).operand(c.field_op('retry_src_cid'), c.bb, c.idx), 'dst_cid')]
     valid_site = [c for c in val if c not in retry_site]
     ctx.check(len(retry_site) == 1 and len(valid_site) == 1, 'a', 'token_kind_sites', fh, fh.where(), 'one Retry and one Validation acceptance site', 'cannot tell the Retry and Validation acceptance sites apart')
     if retry_site:
         s = retry_site[0].bb
-        guard_protects(ctx, 'a', 'retry_token_bound_to_address_and_port', fh, lambda o, a, b: o == 'Ne' and (D.has_param(a, name='remote_address') or D.has_param(b, name='remote_address')) and not D.has_call(a, 'SocketAddr::ip') and not D.has_call(b, 'SocketAddr::ip'), [s], what='address != remote_address')
+        guard_protects(ctx, 'a', 'retry_token_bound_to_address_and_port', fh, lambda o, a, b: o == 'Ne' and ((_token_field(a, 'Retry', 'address') and _is_param(b, 'remote_address')) or (_token_field(b, 'Retry', 'address') and _is_param(a, 'remote_address'))), [s], what='token.address != remote_address')
         guard_protects(ctx, 'a', 'retry_token_lifetime', fh, lambda o, a, b: o == 'Lt' and D.has_field(a, 'retry_token_lifetime') and D.has_call(b, 'TimeSource::now'), [s], what='issued + retry_token_lifetime < now')
     if valid_site:
         s = valid_site[0].bb
-        guard_protects(ctx, 'a', 'validation_token_bound_to_ip', fh, lambda o, a, b: o == 'Ne' and (D.has_call(a, 'SocketAddr::ip') or D.has_call(b, 'SocketAddr::ip')), [s], what='ip != remote_address.ip()')
+        guard_protects(ctx, 'a', 'validation_token_bound_to_ip', fh, lambda o, a, b: o == 'Ne' and ((_token_field(a, 'Validation', 'ip') and _remote_ip(b)) or (_token_field(b, 'Validation', 'ip') and _remote_ip(a))), [s], what='token.ip != remote_address.ip()')
         guard_protects(ctx, 'a', 'validation_token_lifetime', fh, lambda o, a, b: o == 'Lt' and D.has_field(a, 'validation_token') and D.has_field(a, 'lifetime') and D.has_call(b, 'TimeSource::now'), [s], what='issued + lifetime < now')
         logc = fh.calls_to('TokenLog::check_and_insert')
         ctx.floor('a', 'token_log_sites', len(logc), 1)
@@ -71,11 +147,12 @@ def rule_a(ctx):
     opn = td.calls_to('AeadKey::open')
     ctx.floor('a', 'aead_open_sites', len(opn), 1)
     tcons = [c for c in constructions(F, 'token::Token', 'Token', crate='quinn_proto') if F.root_of(c.body).id == td.id]
+    ctx.floor('a', 'token_constructions_in_decode', len(tcons), 1)
     for c in tcons:
         ctx.check(must_precede(F, td, c.bb, ['AeadKey::open'], 0) is None, 'a', 'token_only_after_aead_open', td, c.where(), 'dominated by AeadKey::open', 'Token::decode can yield a token without opening the AEAD')
-        em = [br for br in branches(F, td) if D.has_call(br.desc, '[T]::is_empty') or D.has_call(br.desc, 'is_empty')]
-        ok = bool(em) and any(td.dominates(br.bb, c.bb) for br in em)
-        ctx.check(ok, 'a', 'trailing_bytes_rejected', td, c.where(), 'reader.is_empty() dominates Some(token)', 'tokens with trailing bytes are accepted')
+        em = _nonempty_edges(ctx, td, lambda x: D.has_call(x, 'AeadKey::open'))
+        ok = any(td.dominates(br.bb, c.bb) and c.bb not in td.reachable_from(tgt, avoid=[br.bb]) for br, tgt in em)
+        ctx.check(ok, 'a', 'trailing_bytes_rejected', td, c.where(), 'Some(token) only over the reader.is_empty() edge of a dominating test', 'tokens with trailing bytes are accepted (the construction is reachable from the non-empty edge, or the test is gone)')
     for o in opn:
         okk = False
         for br in branches(F, td):
@@ -107,18 +184,21 @@ def rule_c(ctx):
         ts = [c for c in b.calls_to('TimeSource::now')]
         ctx.check(not bad and bool(ts), 'c', 'token_time_from_time_source', b, b.where(), 'TimeSource::now (%d site)' % len(ts), '%s reads the wall clock directly instead of the configured TimeSource (%s)' % (fn, [c.where() for c in bad]))
     pp = ctx.pfn('Connection::populate_packet')
-    for c in constructions(F, 'token::TokenPayload', 'Validation', crate='quinn_proto'):
-        if F.root_of(c.body).id == pp.id:
-            v = describer(F, pp).operand(c.field_op('issued'), c.bb, c.idx)
-            ctx.check(D.has_call(v, 'TimeSource::now'), 'c', 'new_token_issue_time', pp, c.where(), D.render(v)[:80], 'NEW_TOKEN issue time does not come from the TimeSource: ' + D.render(v)[:120])
+    vc = [c for c in constructions(F, 'token::TokenPayload', 'Validation', crate='quinn_proto') if F.root_of(c.body).id == pp.id]
+    ctx.floor('c', 'new_token_payload_sites', len(vc), 1)
+    for c in vc:
+        v = describer(F, c.body).operand(c.field_op('issued'), c.bb, c.idx)
+        ctx.check(_is_call(v, 'TimeSource::now'), 'c', 'new_token_issue_time', pp, c.where(), D.render(v)[:80], 'NEW_TOKEN issue time is not exactly the TimeSource reading: ' + D.render(v)[:120])
     rt = ctx.pfn('Endpoint::retry')
-    for c in constructions(F, 'token::TokenPayload', 'Retry', crate='quinn_proto'):
-        if F.root_of(c.body).id == rt.id:
-            dd = describer(F, rt)
+    rc = [c for c in constructions(F, 'token::TokenPayload', 'Retry', crate='quinn_proto') if F.root_of(c.body).id == rt.id]
+    ctx.floor('c', 'retry_token_payload_sites', len(rc), 1)
+    for c in rc:
+        if True:
+            dd = describer(F, c.body)
             v = dd.operand(c.field_op('issued'), c.bb, c.idx)
             a = dd.operand(c.field_op('address'), c.bb, c.idx)
             o = dd.operand(c.field_op('orig_dst_cid'), c.bb, c.idx)
-            ctx.check(D.has_call(v, 'TimeSource::now'), 'c', 'retry_token_issue_time', rt, c.where(), D.render(v)[:80], 'Retry token issue time not from the TimeSource')
+            ctx.check(_is_call(v, 'TimeSource::now'), 'c', 'retry_token_issue_time', rt, c.where(), D.render(v)[:80], 'Retry token issue time is not exactly the TimeSource reading (post-/pre-dated): ' + D.render(v)[:120])
             ctx.check(D.has_field(a, 'remote') and D.has_field(o, 'dst_cid'), 'c', 'retry_token_binds_address_and_odcid', rt, c.where(), 'address: incoming.addresses.remote, orig_dst_cid: header.dst_cid', 'Retry token payload no longer binds the client address and original DCID')
 
 
@@ -132,8 +212,15 @@ def rule_d(ctx):
         return lambda o, a, b: o == 'Ne' and ((D.has_field(a, fa) and D.has_field(b, fb)) or (D.has_field(b, fa) and D.has_field(a, fb)))
     for name, fa, fb in (('initial_src_cid', 'orig_rem_cid', 'initial_src_cid'), ('original_dst_cid', 'initial_dst_cid', 'original_dst_cid'), ('retry_src_cid', 'retry_src_cid', 'retry_src_cid')):
         es = guard_edges(ctx, hpp, cidcmp(fa, fb))
-        ok = bool(es)
+        ok = bool(es) and bool(sp)
         for br, truth, tgt in es:
+            # the comparison lies on every path to set_peer_params; the two server-only parameters may be skipped only over
+            # the is_client() == false edge (a server never receives them)
+            skip = set()
+            if name != 'initial_src_cid':
+                skip = {(cb.bb, t) for cb, tr, t in bool_edges(ctx, hpp, lambda x: x[0] == 'call' and x[1] == 'ConnectionSide::is_client' and D.has_field(x, 'side') and D.has_param(x, name='self')) if not tr}
+            if set(sp) & hpp.reachable_from(0, avoid=[br.bb], avoid_edges=skip):
+                ok = False
             eff = err_code_calls(ctx, hpp, 'TRANSPORT_PARAMETER_ERROR')
             if path_avoiding(hpp, [tgt], set(hpp.return_blocks()) | set(sp), eff) is not None:
                 ok = False
@@ -171,10 +258,9 @@ def rule_f(ctx):
     fc = bl.calls_to('Filter::check_and_insert')
     ok = bool(fc)
     if ok:
-        oks = [c for c in constructions(F, 'Result', 'Ok') if F.root_of(c.body).id == bl.id]
         rd = [y for _, x in ret_descs(F, bl) for y in flat(x)]
-        ok = all((y[0] == 'agg' and y[2].endswith('Err')) or D.has_call(y, 'Filter::check_and_insert') for y in rd)
-    ctx.check(ok, 'f', 'log_always_consults_filter', bl, bl.where(), 'every Ok comes from Filter::check_and_insert', 'BloomTokenLog can accept a token without consulting a filter')
+        ok = bool(rd) and all((y[0] == 'agg' and y[2].endswith('Err')) or _is_call(y, 'Filter::check_and_insert') for y in rd) and any(_is_call(y, 'Filter::check_and_insert') for y in rd)
+    ctx.check(ok, 'f', 'log_always_consults_filter', bl, bl.where(), 'the verdict returned is an Err literal or exactly the result of Filter::check_and_insert', 'BloomTokenLog can accept a token without consulting a filter')
     # expiry-based period selection uses issued + lifetime
     d = describer(F, bl)
     ea = local_defs_desc(ctx, bl, 'expires_at')
@@ -185,11 +271,16 @@ def rule_f(ctx):
     pp = ctx.pfn('Connection::populate_packet')
     tn = pp.calls_to('Token::new')
     en = pp.calls_to('Token::encode')
-    ok = bool(tn) and bool(en) and all(any(contains_site(arg_desc(F, e, 0), t) for t in tn) for e in en)
+    # the token encoded is made for this very frame: its Token::new site dominates the encode and is re-executed before the
+    # encode can run again (no cycle through the encode avoids it)
+    ok = bool(tn) and bool(en) and all(any(contains_site(arg_desc(F, e, 0), t) and pp.dominates(t.bb, e.bb) and e.bb not in pp.reachable_strict(e.bb, avoid=[t.bb]) for t in tn)
+                                       and all(any(contains_site(y, t) for t in tn) for y in flat(arg_desc(F, e, 0))) for e in en)
     ctx.check(ok, 'f', 'new_token_fresh_per_transmission', pp, pp.where(), 'Token::new(..).encode(..) per NEW_TOKEN frame', 'NEW_TOKEN frames no longer carry a freshly generated token')
     tnw = ctx.pfn('Token::new')
-    for c in constructions(F, 'token::Token', 'Token', crate='quinn_proto'):
-        if F.root_of(c.body).id == tnw.id:
+    nc = [c for c in constructions(F, 'token::Token', 'Token', crate='quinn_proto') if c.body.id == tnw.id]
+    ctx.floor('f', 'token_new_constructions', len(nc), 1)
+    for c in nc:
+        if True:
             v = describer(F, tnw).operand(c.field_op('nonce'), c.bb, c.idx)
             ctx.check(D.has_param(v, name='rng') or 'random' in D.render(v), 'f', 'token_nonce_random', tnw, c.where(), D.render(v)[:80], 'token nonce is not drawn from the rng')
 
